@@ -93,12 +93,16 @@ def _report(rep, name, out, bound):
 
 def run(tier, rep):
     deep, wide, g2 = _jobs(tier)
-    bound = 1 if tier == "quick" else 2
     with Pool() as pool:
         out_w = explore_many(pool, wide, 0, JUDGE)
         _report(rep, "wide_d0_all_histories", out_w, 0)
-        out_d = explore_many(pool, deep, bound, JUDGE)
-        _report(rep, "deep_G1", out_d, bound)
+        out_d = explore_many(pool, deep, 1, JUDGE)
+        _report(rep, "deep_G1_d1", out_d, 1)
+        if tier == "thorough":
+            # two deviations on the 2-node harnesses and the four shortest histories (about 5 000 schedules per job)
+            d2 = {k: v for k, v in deep.items() if k[0] in ("L1.16-16", "L2", "L0") and k[1] in ("r.", "Rs.", "R.", "rr.") and k[3] == "SIM"}
+            out_d2 = explore_many(pool, d2, 2, JUDGE)
+            _report(rep, "deep_G1_d2", out_d2, 2)
         # line-level granularity (G2): the check-then-act windows inside stop()/_async_step are one or two bytecode lines wide
         l0 = {k: v for k, v in g2.items() if k[0] == "L0"}
         l0_run = {k: v for k, v in l0.items() if k[1] == "r."}
